@@ -1,6 +1,7 @@
 (* C02: reverse complement and ACGT decoding are exact inverses. *)
 From Coq Require Import NArith List.
-From KT Require Import Model.Kmer Proof.KmerProof Proof.Regs Proof.RevComp.
+From Coq Require Import Sorting.Permutation.
+From KT Require Import Gen.Alphabet Model.Kmer Proof.KmerProof Proof.Regs Proof.RevComp Proof.Strand Proof.RowsProof.
 Import ListNotations.
 Open Scope N_scope.
 
@@ -19,6 +20,25 @@ Proof. intros k x Hx. split; [apply digits_len|split; [apply digits_dig|apply co
 Theorem C02_encode_decode : forall l, dig l -> digits (length l) (code l) = l.
 Proof. exact digits_code. Qed.
 
+(* the second component of every pair the k-mer iterator produces is the reverse complement of the first
+   (through C01 the iterator's stream IS spec_kmers), and both are below 4^k *)
+Theorem C02_second_component_is_reverse_complement :
+  forall nt4 k s f r, (k <= 31)%nat -> In (f, r) (spec_kmers nt4 k s) ->
+  f < 4 ^ N.of_nat k /\ r = rev_comp k f /\ r < 4 ^ N.of_nat k.
+Proof. intros nt4 k s f r Hk Hin. apply (pair_is_rc nt4 k s f r); [Lia.lia|exact Hin]. Qed.
+
+(* the k-mer stream of the reverse-complemented sequence is the original stream reversed with strands swapped
+   (ambiguous bytes stay in place and stay ambiguous) ... *)
+Theorem C02_stream_of_reverse_complement :
+  forall k s, spec_kmers digit_of_letter k (rc_seq s) = rev (map swap (spec_kmers digit_of_letter k s)).
+Proof. intros k s. exact (spec_kmers_rc digit_of_letter comp_byte comp_clean comp_digit k s). Qed.
+
+(* ... so the multiset of canonical k-mers is the same for a sequence and its reverse complement *)
+Theorem C02_canonical_multiset_is_strand_symmetric :
+  forall k s, Permutation (map Strand.cmin (spec_kmers digit_of_letter k (rc_seq s)))
+                          (map Strand.cmin (spec_kmers digit_of_letter k s)).
+Proof. intros k s. exact (canon_multiset_rc digit_of_letter comp_byte comp_clean comp_digit k s). Qed.
+
 Example C02_example : rev_comp 6 875 = 355.   (* ATCGGT -> ACCGAT, the repository's own test *)
 Proof. vm_compute. reflexivity. Qed.
 
@@ -26,3 +46,6 @@ Print Assumptions C02_rev_comp_involutive.
 Print Assumptions C02_rev_comp_text.
 Print Assumptions C02_decode_encode.
 Print Assumptions C02_encode_decode.
+Print Assumptions C02_second_component_is_reverse_complement.
+Print Assumptions C02_stream_of_reverse_complement.
+Print Assumptions C02_canonical_multiset_is_strand_symmetric.
